@@ -4,22 +4,22 @@ import json
 ALL = ["C%02d" % i for i in range(1, 19)]
 FAULT = {"C10", "C17"}
 CHECKS = {
- "C01": ("exhaustive enumeration of all acyclic recipe books within the bound x namings x both entry points x every map visiting order, run on the real resolver and compared with exact big.Rat path sums", "§4 C01"),
- "C02": ("exhaustive enumeration of day shapes x books x 4 renderers through the real application in-process; outputs parsed and compared with a reference register in exact rationals", "§4 C02"),
- "C03": ("every subset of a path universe x 6 display modes through the real application; conservation and mode equivalence checked exactly (power-of-two quantities identify the summed foods)", "§4 C03"),
+ "C01": ("exhaustive enumeration of all acyclic recipe books within the bound (coefficients incl. 1, negative, fraction, zero) x namings x both entry points x every visiting order of every ranged map, wide recipes around the slice capacities 8/16/32, and the same books through files and two commands; compared with exact big.Rat path sums", "§4 C01; §9"),
+ "C02": ("exhaustive enumeration of day shapes x 7 books (flat, empty recipe, nested, three levels in both visiting directions, mixed sign) x 4 renderers, merge shapes with power-of-two quantities, wide days, exotic names in every role, a large log; outputs parsed and compared with a reference register in exact rationals", "§4 C02; §9"),
+ "C03": ("every subset of a 14-path universe (and a large tree with exotic segment names) x 3 display modes x {all foods, -s X over a nested book} x sign/order/two-day passes; conservation and mode equivalence checked exactly", "§4 C03; §9"),
  "C05": ("every permutation at every (pair of) dynamic visit(s) of every ranged map, chosen by the explorer through the overlay map-order seam, for 16 inputs x 26 command shapes; byte-identical output required", "§4 C05"),
  "C06": ("exhaustive product logs x (begin,end) x commands x flag position x time zone within the stated window; differential oracle against the same command on the physically restricted log", "§4 C06"),
- "C07": ("exhaustive enumeration of small books x logs x periods; ~20 commands per input, relations between independently computed reports checked in exact decimal arithmetic", "§4 C07"),
+ "C07": ("exhaustive enumeration of small books (three nesting levels, both visiting directions) x logs over 7 foods (path-prefix foods, exotic name, directly logged element) x periods, plus a large log; ~20 commands per input, relations checked in exact decimal arithmetic", "§4 C07; §9"),
  "C11": ("exhaustive enumeration of all ingredient graphs on 3 (quick) / 4 (thorough) recipes x depth limits x both entry points x every map visiting order, executed on the real resolver", "§4 C11"),
- "C12": ("all append histories up to depth 4 (quick) / 6 (thorough) over 7 day blocks x 2 books; concatenation and element-wise-sum laws checked on every edge of the history tree", "§4 C12"),
- "C15": ("full product of presentation flags x all small logs; record equality, per-day interleaving law, colour law, shortening law, --desc law", "§4 C15"),
+ "C12": ("all append histories up to depth 4 (quick) / 6 (thorough) over 9 day blocks (incl. exotic names and a 70-entry day) x 2 three-level books; concatenation law for 10 per-day commands (with and without a period) and element-wise-sum law for 6 period commands on every edge of the history tree", "§4 C12; §9"),
+ "C15": ("full product of register presentation flags x all small logs over a book with empty recipes; record equality, per-day interleaving law, colour law, shortening law; balance display modes on all prefix-free subsets; --desc law", "§4 C15; §9"),
 }
 CHECKS.update({
- "C08": ("every token string up to 5 (6) tokens through the parser, every file of up to 2 (3) lines over 24 line shapes in every role through 50 command/flag shapes, cycles x depth limits; panics recovered and attributed, process deaths attributed through a journal, 120 s horizon per case", "§4 C08"),
- "C18": ("every interleaving of the real producer (Parser.ParseStream / ParseFile, channel sends hooked by the overlay) and the documented consumers on a cooperative scheduler over modelled channels, with select-choice enumeration and deadlock detection; model validated against real channels on every run", "§4 C18"),
- "C04": ("every abstract file within the bound rendered under every layout departing from the README layout in at most 2 (3) places, every name/number of the alphabets at every position; the real parser's exact callback sequence compared with the abstract file (numbers rounded through big.Rat)", "§4 C04"),
+ "C08": ("every token string up to 5 (6) tokens through the parser, every file of up to 2 (3) lines over 24 line shapes in every role through 50 command shapes, every subset of the boolean flags, unreadable inputs, cycles x depth limits up to 2e9; panics recovered and attributed, process deaths attributed through a journal, 120 s horizon per case", "§4 C08; §9"),
+ "C18": ("every interleaving of the real producer (Parser.ParseStream / ParseFile; sends, selects, receives, go and close hooked by the overlay) and the documented consumers on a cooperative scheduler over modelled channels, with select-choice enumeration, arrival transitions around non-blocking selects and deadlock detection; model validated against real channels on every run; free-running -race pass in the thorough tier", "§4 C18; §9"),
+ "C04": ("every abstract file within the bound under every layout departing from the README layout in at most 2 places, every name and number literal at every position, long files (up to 3000 records) and long lines (4090..65000 bytes in every line role); the real parser's exact callback sequence compared with the abstract file", "§4 C04; §9"),
  "C09": ("well-formed skeletons with k<=2 malformed lines planted at every position, in every role, through every file-reading command and lint; exact message, line number and order asserted", "§4 C09"),
- "C10": ("every byte offset at which the reader starts failing x delivery style x chunking, on the parser and on 14 commands through the CmdUtils seam; directories and over-long lines on real files", "§4 C10"),
+ "C10": ("every byte offset at which the reader starts failing x delivery style x chunking, on the parser (small files and a 10 KB file around every 4096 boundary) and on 14 commands x period flags through the CmdUtils seam, strict form (the file cannot be read past byte k => error); directories and over-long lines on real files", "§4 C10; §9"),
  "C13": ("all pairs of exotic names x quantity literals through the three CSV exports; own RFC 4180 reader; row sets, order, names, ISO dates and half-unit accuracy against exact rationals", "§4 C13"),
  "C14": ("logs x 4 date formats x periods x layouts: print, print again (fixpoint), parse back, csv log of both", "§4 C14"),
  "C16": ("the product flag x env x config entry for the five settings x config location (quick: <= 3 sources set; thorough: full 2^14 product), differential against flags-only runs; explicit config existing/missing; --no-database", "§4 C16"),
@@ -60,7 +60,11 @@ m = {
   {"name": "mc", "path": "harness/mc.go", "serves_properties": sorted(CHECKS),
    "kind_free_text": "stateless explorer written for this task: depth-first enumeration of all choice vectors by re-execution of the real code (inputs, layouts, map iteration orders, fault offsets, schedules are all Choose() points), deviation budgets per class, 16 process shards, determinism audit, replay files"},
   {"name": "rewriter", "path": "driver/rewrite.go", "serves_properties": sorted(CHECKS),
-   "kind_free_text": "go/types-driven source rewriter producing a build overlay: map-order seam at every range over a map, channel seam in package parser"},
+   "kind_free_text": "go/types-driven source rewriter producing a build overlay: map-order seam at every range over a map, channel seam (send, select, receive, go, close) in package parser"},
+  {"name": "sched", "path": "harness/sched.go", "serves_properties": ["C18"],
+   "kind_free_text": "cooperative scheduler over a model of Go channels: real goroutines run one at a time and park at channel operations; transitions = enabled communications, select cases, arrivals, defaults; deadlock detection"},
+  {"name": "faultio", "path": "harness/faultio.go", "serves_properties": ["C10", "C17"],
+   "kind_free_text": "fault-injecting io.Reader / io.Writer behind the repository's own CmdUtils seam: fails from byte offset k, error alone or with the last bytes, short reads and short writes"},
  ],
  "checks": [],
  "not_applicable": [],
